@@ -27,6 +27,8 @@ claimed = {
          "bounds in evidence (histories of 1..3/4 samples over a 3-key alphabet); mean/standard deviation (float accumulation) and the accumulating group outside"),
  "C13": ("Real helpers.BuildSorter/parseSort/lookupSorter and the comparators they compose (ByName, ByNameSmart, ByContextualEx, ByDate, ValueSorterEx, ValueNilSorter, Reverse) executed on triples of pairwise distinct symbolic keys: the strict-total-order laws (asymmetric, total, transitive in every arrangement, same answer when asked again / after other pairs were compared) that make sort.Sort's result a function of the key set, plus the documented meaning of each mode and modifier; numeric keys go through the real strconv.ParseFloat executed symbolically and, separately, through ParseFloat abstracted to an arbitrary function; date keys through the real dateparse/time code executed by the engine; sorted item/row/column lists under every forked map iteration order.",
          "bounds in evidence (keys <=2/3 bytes, pools of calendar names and dates); sort.Sort trusted; one known finding (date sort with mixed layouts, see known_findings.json)"),
+ "C14": ("Real termscaler.Scale (clamps for every int64 triple and scaler, degenerate ranges, the linear part on an integer window), Bucket/LengthVal and HeatWrite/SparkWrite/BarWrite for every float64 magnitude in [0,1] (exact floating point, cvc5), BarWriteStacked/barWriteRunes for arbitrary int64 segments (128-bit product/quotient contracts), TableWriter column alignment for cells with colour codes and multi-byte runes, and Heatmap/Spark/DataTable/HistoWriter/BarGraph driven as the commands drive them on symbolic tables with arbitrary int64 values and limits >= 0: no panic or non-termination, one cell per displayed column, '(n more)' counts, displayed numbers = aggregated numbers under the formatter, bars within their width.",
+         "bounds in evidence; compositional: renderer harnesses take any in-range bucket/length (stubs), Scale in [0,1] over the full int64 range and monotonicity are NOT decided (floating point beyond the back ends; stated as outside); percentages and fmt text outside"),
 }
 man = {
  "version": 1,
